@@ -41,6 +41,9 @@ def report_suppressions(message):
 
     record = logging_seen_warnings.get(hash(str(message)))
     if record:
+        if isinstance(message, str) and "://" in message:
+            # the report is a dictionary, which has no URL step: remove the user-info here
+            message = re.sub(r":\/\/(.*?)\@", "://<redacted>", message)
         # report the message as a field of a JSON object so that it is sanitized again:
         # inside a line of text its sensitive values would be written as they are
         ml.get_logger().warning(
